@@ -7,7 +7,7 @@
    acknowledgements, 0 or 1 for DISCONNECT and AUTH).  [expected v p rem] (Codec/SpecBridge.v) is the
    Go Packet value the sender of p meant. *)
 From MV Require Import Base.Val Codec.Vbi Codec.Wire Codec.Props Codec.MochiCodec Codec.SpecCodec
-  Codec.SpecBridge Codec.CodecOrder Codec.CodecEnc Codec.CodecC42 Findings.FixedC42.
+  Codec.SpecBridge Codec.SpecRT Codec.CodecOrder Codec.CodecEnc Codec.CodecC42 Findings.FixedC42.
 From Coq Require Import Permutation.
 Open Scope N_scope.
 
@@ -44,6 +44,20 @@ Theorem C42_disconnect_will : forall rest, Vbi.wf_bytes rest ->
   mochi_decode_packet 5 ([224; 1; 4] ++ rest) = Ok (expected 5 (SDisconnect 4 []) 1, rest) /\
   pk_reason_code (expected 5 (SDisconnect 4 []) 1) = 4.
 Proof. intros rest H. split; [exact (disconnect_with_will rest H) | reflexivity]. Qed.
+
+(* The reference decoder itself accepts every permitted encoding (round trip of the REFERENCE codec,
+   all 15 packet types, every shortened form, followed by anything) and returns the packet with the
+   properties in the order in which they were sent; with the reordering relation: for every
+   encoding in [spec_encodings] it returns a packet [p'] that is [p] up to the permitted reordering
+   of properties.  So the arbiter used by the engine codec_enc agrees with C42_all. *)
+Theorem C42_reference_roundtrip : forall v p bs rest,
+  valid_packet v p = true -> In bs (spec_forms v p) -> spec_decode_packet v (bs ++ rest) = Some (p, rest).
+Proof. exact spec_roundtrip. Qed.
+
+Theorem C42_reference_accepts_encodings : forall v p bs rest,
+  valid_packet v p = true -> spec_encodings v p bs ->
+  exists p', same_packet p p' /\ spec_decode_packet v (bs ++ rest) = Some (p', rest).
+Proof. exact spec_accepts_encodings. Qed.
 
 (* non-vacuity: the shortened forms are permitted encodings; a PUBLISH with four properties has a
    permitted encoding in which the order is changed (user properties stay in sequence) *)
@@ -136,3 +150,5 @@ Print Assumptions C42_all.
 Print Assumptions C42_client.
 Print Assumptions C42_any_order.
 Print Assumptions C42_disconnect_will.
+Print Assumptions C42_reference_roundtrip.
+Print Assumptions C42_reference_accepts_encodings.
